@@ -246,7 +246,7 @@ int disasm_thumb(
           snprintf(instruction, length, "%s 0x%04x (%d)", table_thumb[n].instr, address + 4 + offset, offset);
           return 4;
         case OP_SP_SP_IMM:
-          snprintf(instruction, length, "%s SP, SP, #%d", table_thumb[n].instr, (opcode & 0x3f) * 4);
+          snprintf(instruction, length, "%s SP, SP, #%d", table_thumb[n].instr, (opcode & 0x7f) * 4);
           return 2;
         case OP_REG_REG:
           snprintf(instruction, length, "%s r%d, r%d", table_thumb[n].instr, opcode & 7, (opcode >> 3) & 7);
